@@ -1,6 +1,6 @@
 \* C20 residual scenarios (quick): chain of <= 2, <= 2 pools, one protocol pool
 CONSTANTS
-    Shapes = {"ss", "tc", "ptc"}
+    Shapes = {"ss", "ssc", "tc", "ptc"}
     MaxChain = 2
     MaxPools = 2
     Rich = FALSE
